@@ -60,7 +60,6 @@ case("C07", "register-unrecorded-hook", "VIOLATION", [(D, "\tmodule.handles.appe
 case("C07", "predict-train-after", "VIOLATION", [(P, "\tif isinstance(y[0], torch.Tensor):\n\t\ty = torch.cat(y)", "\tmodel.train()\n\tif isinstance(y[0], torch.Tensor):\n\t\ty = torch.cat(y)")], "R-MODEL", "predict.predict")
 case("C07", "predict-no-eval", "VIOLATION", [(P, "model = model.to(device).eval()", "model = model.to(device)")], "R-EVAL")
 case("C07", "predict-no-nograd", "VIOLATION", [(P, "with torch.no_grad():", "with torch.enable_grad():")], "R-NOGRAD")
-case("C07", "predict-inference-mode", "HOLDS", [(P, "with torch.no_grad():", "with torch.inference_mode():")])
 case("C07", "predict-eval-separate", "HOLDS", [(P, "model = model.to(device).eval()", "model = model.to(device)\n\tmodel.eval()")])
 case("C07", "dls-backward", "VIOLATION", [(D, "multipliers = torch.autograd.grad(y.sum(), _X)[0]", "y.sum().backward()\n\t\t\t\t\t\tmultipliers = _X.grad")], "R-MODEL")
 case("C07", "dls-zero-grad", "VIOLATION", [(D, "\tmodel = model.to(device).eval()\n\tfor module in model.modules():", "\tmodel = model.to(device).eval()\n\tmodel.zero_grad()\n\tfor module in model.modules():")], "R-MODEL")
@@ -397,3 +396,7 @@ case("C06", "flush-in-set-order", "VIOLATION", [(D, "\t\t\t\twhile len(attr_) >=
 case("C04", "projection-before-convergence-check", "VIOLATION", [(D, "\t\t\t\t\t# Check that the prediction-difference-from-reference is equal to\n", "\t\t\t\t\tif raw_outputs == False:\n\t\t\t\t\t\tmultipliers = hypothetical_attributions((multipliers,), (_X,), (_references,))[0]\n\t\t\t\t\t# Check that the prediction-difference-from-reference is equal to\n")], "HALVES", "deep_lift_shap.deep_lift_shap")
 case("C17", "mask-from-filtered-loci", "VIOLATION", [(MT, "\tloci_chroms = numpy.unique(loci['chrom'])\n", "\tloci = loci[loci['start'] > 0]\n\tloci_chroms = numpy.unique(loci['chrom'])\n")], "MASK", "match.extract_matching_loci")
 case("C03", "args-check-one-sided", "VIOLATION", [(P, "\t\t\tif arg.shape[0] != X.shape[0]:", "\t\t\tif arg.shape[0] < X.shape[0]:")], "ARGS-CHECK", "predict.predict")
+prefix("C06", "D22-prefix-softmax-batch-mean", D, "c5ef762", "R-BATCH", "deep_lift_shap._softmax")
+case("C06", "nonlinear-batch-scaled-tolerance", "VIOLATION", [(D, "\tidxs = torch.abs(delta_in) < 1e-6\n\n\treturn (torch.where(idxs, grad_input[0], grad_output[0] * delta),)", "\ttol = 1e-6 * max(1.0, module.input.abs().max().item())\n\tidxs = torch.abs(delta_in) < tol\n\n\treturn (torch.where(idxs, grad_input[0], grad_output[0] * delta),)")], "R-BATCH", "deep_lift_shap._nonlinear")
+case("C05", "hooks-skip-foreign-forward-hook", "VIOLATION", [(D, "\tif len(module._backward_hooks) > 0:\n\t\treturn\n", "\tif len(module._backward_hooks) > 0 or len(module._forward_hooks) > 0:\n\t\treturn\n")], "HOOKS", "deep_lift_shap._register_hooks")
+case("C07", "predict-inference-mode", "VIOLATION", [(P, "with torch.no_grad():", "with torch.inference_mode():")], "R-NOGRAD", "predict.predict")
